@@ -335,6 +335,8 @@ class ApiRig:
                  record_sends: bool = False) -> None:
         self.inst = inst
         self.gen = inst.gen
+        from . import bystander
+        bystander.ensure_api(inst.gen)          # a second client of this generation is alive in the process
         self.loop, self.net = vloop.new_loop()
         asyncio.set_event_loop(self.loop)
         self.net.latency_ticks = latency_ticks
